@@ -473,3 +473,217 @@ func zzC04_errors() {
 	verifAssert(IdentityBLSPublicKey().(*pubKeyBLSBLS12381).isIdentity, "identity key constant")
 	verifReach("aggregate errors")
 }
+
+// ---------------------------------------------------------------------------------------------
+// C02: aggregate verification
+
+func digit(v, i, base int) int {
+	for k := 0; k < i; k++ {
+		v /= base
+	}
+	return v % base
+}
+
+// zzC02_many: n triples; keyPat / msgPat give (base n) the key id and message id of each position;
+// the candidate is the honest aggregate plus delta*g1. The verdict is true exactly when delta = 0,
+// for every iteration order of the internal maps and whichever grouping is selected.
+func zzC02_many(n, keyPat, msgPat int, twoTags bool) {
+	xs := make([]scalar, n)
+	msgs := make([][]byte, n)
+	for i := 0; i < n; i++ {
+		nondetFrStar(&xs[i])
+		msgs[i] = []byte{byte(i), nondetByte()} // distinct ids give distinct messages
+	}
+	h1, h2 := testHasher("many-tag"), testHasher("many-tag")
+	if twoTags {
+		h2 = testHasher("many-tag-2")
+	}
+	pks := make([]PublicKey, n)
+	ms := make([][]byte, n)
+	hs := make([]hash.Hasher, n)
+	sigs := make([]Signature, n)
+	for i := 0; i < n; i++ {
+		k, m := digit(keyPat, i, n), digit(msgPat, i, n)
+		sk := newPrKeyBLSBLS12381(&xs[k]) // a fresh key object per position (equal points in distinct objects)
+		pks[i] = sk.PublicKey()
+		ms[i] = msgs[m]
+		hs[i] = h1
+		if i%2 == 1 {
+			hs[i] = h2
+		}
+		sigs[i], _ = sk.Sign(ms[i], hs[i])
+	}
+	agg, err := AggregateBLSSignatures(sigs)
+	verifAssert(err == nil, "aggregation")
+	var delta scalar
+	nondetFr(&delta)
+	var dG, cand pointE1
+	generatorScalarMultG1(&dG, &delta)
+	addE1(&cand, decodeSigPoint(agg), &dG)
+	cb := make([]byte, g1BytesLen)
+	writePointE1(cb, &cand)
+	ok, err := VerifyBLSSignatureManyMessages(pks, cb, ms, hs)
+	verifAssert(err == nil, "no error for well-formed inputs")
+	verifAssert(ok == delta.isZero(), "ManyMessages accepts exactly the aggregate of the individual signatures")
+	// one-message API agrees when all messages and hashers coincide
+	if msgPat == 0 && !twoTags {
+		ok1, err := VerifyBLSSignatureOneMessage(pks, cb, ms[0], h1)
+		verifAssert(err == nil, "OneMessage returns no error")
+		aggPk, _ := AggregateBLSPublicKeys(pks)
+		ok2, _ := aggPk.Verify(cb, ms[0], h1)
+		verifAssert(ok2 == ok1, "OneMessage = Verify under the aggregated key")
+		// the two APIs agree unless the keys cancel (the aggregated key is then the identity, which Verify rejects)
+		verifAssert(bOr(aggPk.(*pubKeyBLSBLS12381).isIdentity, ok1 == ok), "OneMessage agrees with ManyMessages when the aggregated key is not the identity")
+	}
+	verifReach("many messages")
+}
+
+// zzC02_cancel: keys x and -x on one message: the keys cancel, the aggregate is the identity signature;
+// the verdict is still given by the pairing-product definition (no key is the identity).
+func zzC02_cancel() {
+	var x, y scalar
+	nondetFrStar(&x)
+	nondetFrStar(&y)
+	sum, _ := AggregateBLSPrivateKeys([]PrivateKey{newPrKeyBLSBLS12381(&x), newPrKeyBLSBLS12381(&y)})
+	verifAssume(sum.(*prKeyBLSBLS12381).scalar.isZero()) // y = -x
+	msg := nondetBytes(2)
+	h := testHasher("many-tag")
+	pks := []PublicKey{newPrKeyBLSBLS12381(&x).PublicKey(), newPrKeyBLSBLS12381(&y).PublicKey()}
+	ok, err := VerifyBLSSignatureManyMessages(pks, g1Serialization, [][]byte{msg, msg}, []hash.Hasher{h, h})
+	verifAssert(bAnd(ok, err == nil), "cancelling keys on one message: the identity signature satisfies the pairing product")
+	var d scalar
+	nondetFrStar(&d)
+	cb, _ := g1PointBytes(&d, false)
+	ok, err = VerifyBLSSignatureManyMessages(pks, cb, [][]byte{msg, msg}, []hash.Hasher{h, h})
+	verifAssert(bAnd(!ok, err == nil), "and nothing else does")
+	ok, _ = VerifyBLSSignatureOneMessage(pks, g1Serialization, msg, h)
+	verifAssert(!ok, "OneMessage = Verify under the sum, which is the identity key: false")
+	verifReach("cancel")
+}
+
+func zzC02_errors() {
+	var x scalar
+	nondetFrStar(&x)
+	pk := newPrKeyBLSBLS12381(&x).PublicKey()
+	msg := nondetBytes(2)
+	h := testHasher("many-tag")
+	sig, _ := newPrKeyBLSBLS12381(&x).Sign(msg, h)
+	ok, err := VerifyBLSSignatureManyMessages([]PublicKey{}, sig, [][]byte{}, []hash.Hasher{})
+	verifAssert(bAnd(!ok, IsBLSAggregateEmptyListError(err)), "empty lists")
+	ok, err = VerifyBLSSignatureManyMessages([]PublicKey{pk}, sig, [][]byte{msg, msg}, []hash.Hasher{h})
+	verifAssert(bAnd(!ok, IsInvalidInputsError(err)), "mismatched messages")
+	ok, err = VerifyBLSSignatureManyMessages([]PublicKey{pk}, sig, [][]byte{msg}, []hash.Hasher{h, h})
+	verifAssert(bAnd(!ok, IsInvalidInputsError(err)), "mismatched hashers")
+	ok, err = VerifyBLSSignatureManyMessages([]PublicKey{pk}, sig, [][]byte{msg}, []hash.Hasher{nil})
+	verifAssert(bAnd(!ok, IsNilHasherError(err)), "nil hasher")
+	ok, err = VerifyBLSSignatureManyMessages([]PublicKey{pk}, sig, [][]byte{msg}, []hash.Hasher{hash.NewSHA3_256()})
+	verifAssert(bAnd(!ok, IsInvalidHasherSizeError(err)), "wrong-size hasher")
+	ok, err = VerifyBLSSignatureManyMessages([]PublicKey{fakeKey{}}, sig, [][]byte{msg}, []hash.Hasher{h})
+	verifAssert(bAnd(!ok, IsNotBLSKeyError(err)), "non-BLS key")
+	ok, err = VerifyBLSSignatureManyMessages([]PublicKey{pk, IdentityBLSPublicKey()}, sig, [][]byte{msg, msg}, []hash.Hasher{h, h})
+	verifAssert(bAnd(!ok, err == nil), "an identity key in the list gives false")
+	ok, err = VerifyBLSSignatureManyMessages([]PublicKey{pk}, sig[:47], [][]byte{msg}, []hash.Hasher{h})
+	verifAssert(bAnd(!ok, err == nil), "short signature gives false")
+	ok, err = VerifyBLSSignatureManyMessages([]PublicKey{pk}, sig, [][]byte{msg}, []hash.Hasher{h})
+	verifAssert(bAnd(ok, err == nil), "single triple = Verify")
+	_, err = VerifyBLSSignatureOneMessage([]PublicKey{}, sig, msg, h)
+	verifAssert(IsBLSAggregateEmptyListError(err), "OneMessage empty list")
+	_, err = VerifyBLSSignatureOneMessage([]PublicKey{fakeKey{}}, sig, msg, h)
+	verifAssert(IsNotBLSKeyError(err), "OneMessage non-BLS key")
+	verifReach("many errors")
+}
+
+// ---------------------------------------------------------------------------------------------
+// C03: batch verification = individual verification, index by index.
+// kinds per position (base 8 digits of `kinds`): 0 valid | 1 valid + d_i*g1 (independent error) | 2 malformed |
+// 3 short | 4 valid + torsion point | 5 identity public key | 6 valid + D*g1 | 7 valid - D*g1 (6 and 7 share D)
+func zzC03_batch(n, kinds int) {
+	msg := nondetBytes(2)
+	h := testHasher("batch-tag")
+	pks := make([]PublicKey, n)
+	sigs := make([]Signature, n)
+	var D, mD scalar
+	nondetFrStar(&D)
+	nondetFrStar(&mD)
+	s, _ := AggregateBLSPrivateKeys([]PrivateKey{newPrKeyBLSBLS12381(&D), newPrKeyBLSBLS12381(&mD)})
+	verifAssume(s.(*prKeyBLSBLS12381).scalar.isZero()) // mD = -D
+	for i := 0; i < n; i++ {
+		var x scalar
+		nondetFrStar(&x)
+		sk := newPrKeyBLSBLS12381(&x)
+		pks[i] = sk.PublicKey()
+		sig, _ := sk.Sign(msg, h)
+		k := digit(kinds, i, 8)
+		switch k {
+		case 0:
+			sigs[i] = sig
+		case 1, 6, 7:
+			var d scalar
+			if k == 1 {
+				nondetFrStar(&d)
+			} else if k == 6 {
+				d = D
+			} else {
+				d = mD
+			}
+			var dG, c pointE1
+			generatorScalarMultG1(&dG, &d)
+			addE1(&c, decodeSigPoint(sig), &dG)
+			sigs[i] = make([]byte, g1BytesLen)
+			writePointE1(sigs[i], &c)
+		case 2:
+			sigs[i] = BLSInvalidSignature()
+		case 3:
+			sigs[i] = sig[:47]
+		case 4:
+			var T, c pointE1
+			unsafeMapToG1Complement(&T, []byte("verif-seed-for-a-point-outside-G1-0123456789abcdef0123456789abcdef0123456789abcdef0123456789abcdef0123456789"))
+			addE1(&c, decodeSigPoint(sig), &T)
+			sigs[i] = make([]byte, g1BytesLen)
+			writePointE1(sigs[i], &c)
+		case 5:
+			sigs[i] = sig
+			pks[i] = IdentityBLSPublicKey()
+		}
+	}
+	res, err := BatchVerifyBLSSignaturesOneMessage(pks, sigs, msg, h)
+	verifAssert(err == nil, "no error for well-formed lists")
+	verifAssert(len(res) == n, "one verdict per index")
+	for i := 0; i < n; i++ {
+		ind, _ := pks[i].Verify(sigs[i], msg, h)
+		verifAssert(res[i] == ind, "batch verdict = individual verdict at every index")
+		verifAssert(ind == (digit(kinds, i, 8) == 0), "individual verdicts are as constructed")
+	}
+	verifReach("batch")
+}
+
+func zzC03_errors() {
+	var x scalar
+	nondetFrStar(&x)
+	sk := newPrKeyBLSBLS12381(&x)
+	msg := nondetBytes(2)
+	h := testHasher("batch-tag")
+	sig, _ := sk.Sign(msg, h)
+	allFalse := func(r []bool, n int) {
+		verifAssert(len(r) == n, "result length")
+		for _, v := range r {
+			verifAssert(!v, "every verdict is false on an input error")
+		}
+	}
+	r, err := BatchVerifyBLSSignaturesOneMessage([]PublicKey{}, []Signature{}, msg, h)
+	verifAssert(IsBLSAggregateEmptyListError(err), "empty list")
+	allFalse(r, 0)
+	r, err = BatchVerifyBLSSignaturesOneMessage([]PublicKey{sk.PublicKey()}, []Signature{sig, sig}, msg, h)
+	verifAssert(IsInvalidInputsError(err), "mismatched lengths")
+	allFalse(r, 2)
+	r, err = BatchVerifyBLSSignaturesOneMessage([]PublicKey{sk.PublicKey()}, []Signature{sig}, msg, nil)
+	verifAssert(IsNilHasherError(err), "nil hasher")
+	allFalse(r, 1)
+	r, err = BatchVerifyBLSSignaturesOneMessage([]PublicKey{sk.PublicKey()}, []Signature{sig}, msg, hash.NewSHA3_256())
+	verifAssert(IsInvalidHasherSizeError(err), "wrong-size hasher")
+	allFalse(r, 1)
+	r, err = BatchVerifyBLSSignaturesOneMessage([]PublicKey{sk.PublicKey(), fakeKey{}}, []Signature{sig, sig}, msg, h)
+	verifAssert(IsNotBLSKeyError(err), "non-BLS key")
+	allFalse(r, 2)
+	verifReach("batch errors")
+}
